@@ -32,6 +32,7 @@ import (
 	"go/types"
 	"os"
 	"reflect"
+	"regexp"
 	"sort"
 	"strings"
 
@@ -143,7 +144,7 @@ type inliner struct {
 // Transform inlines calls of non-baseline functions in the given (module)
 // packages. It never fails: anything unexpected leaves the code as it is.
 func Transform(pkgs []*packages.Package, excluded func(filename string) bool) *Result {
-	in := &inliner{res: &Result{Overlay: map[string][]byte{}}, callees: map[*types.Func]*callee{}, dirty: map[*ast.File]bool{}, state: map[*types.Func]int{}, origOf: map[*ast.Ident]*ast.Ident{}, pkgIdent: map[*ast.Ident]string{}, closures: map[*types.Var]*callee{}}
+	in := &inliner{n: seqBase, nfresh: seqBase, res: &Result{Overlay: map[string][]byte{}}, callees: map[*types.Func]*callee{}, dirty: map[*ast.File]bool{}, state: map[*types.Func]int{}, origOf: map[*ast.Ident]*ast.Ident{}, pkgIdent: map[*ast.Ident]string{}, closures: map[*types.Var]*callee{}}
 	if len(pkgs) == 0 {
 		return in.res
 	}
@@ -290,13 +291,29 @@ func Transform(pkgs []*packages.Package, excluded func(filename string) bool) *R
 	}
 	sort.Strings(in.res.Inlined)
 	sort.Strings(in.res.Kept)
+	// names made by later calls (the cache module, later rounds) must not
+	// repeat the ones made here
+	if in.n > seqBase {
+		seqBase = in.n
+	}
+	if in.nfresh > seqBase {
+		seqBase = in.nfresh
+	}
+	seqBase++
 	return in.res
 }
+
+// seqBase: where the numbering of generated names starts in the next Transform.
+var seqBase int
+
+// OwnLineDirectives is set by the driver for the second and later rounds: the
+// files then carry the //line comments this package printed itself.
+var OwnLineDirectives bool
 
 func hasDirective(f *ast.File) bool {
 	for _, cg := range f.Comments {
 		for _, c := range cg.List {
-			if strings.HasPrefix(c.Text, "//go:") || strings.HasPrefix(c.Text, "// +build") || strings.HasPrefix(c.Text, "//line") {
+			if strings.HasPrefix(c.Text, "//go:") || strings.HasPrefix(c.Text, "// +build") || (strings.HasPrefix(c.Text, "//line") && !OwnLineDirectives) {
 				return true
 			}
 		}
@@ -325,15 +342,11 @@ func stripDocs(f *ast.File) {
 	})
 }
 
+var ownLabel = regexp.MustCompile(`^inl[0-9]+_done$`)
+
 // eligibility returns "" when calls of the function may be inlined.
 func eligibility(fd *ast.FuncDecl, obj *types.Func) string {
 	sig := obj.Type().(*types.Signature)
-	if sig.TypeParams().Len() > 0 {
-		return "generic"
-	}
-	if sig.Variadic() {
-		return "variadic"
-	}
 	reason := ""
 	depth := 0
 	ast.Inspect(fd.Body, func(n ast.Node) bool {
@@ -344,11 +357,15 @@ func eligibility(fd *ast.FuncDecl, obj *types.Func) string {
 			// defers / returns inside literals belong to the literal
 			return false
 		case *ast.DeferStmt:
-			if !simpleDefer(fd, x) {
-				reason = "contains a defer other than an unconditional argument-less call"
+			if !simpleDefer(fd, x) && !evalDefer(fd, x) {
+				reason = "contains a conditional defer, or a deferred call of a computed function"
 			}
 		case *ast.LabeledStmt:
-			reason = "contains a labelled statement"
+			// labels written by an earlier round of this inliner are
+			// renumbered when the body is copied
+			if !ownLabel.MatchString(x.Label.Name) {
+				reason = "contains a labelled statement"
+			}
 		case *ast.BranchStmt:
 			if x.Tok == token.GOTO {
 				reason = "contains goto"
@@ -401,6 +418,41 @@ func simpleDefer(fd *ast.FuncDecl, d *ast.DeferStmt) bool {
 	return pure(d.Call.Fun)
 }
 
+// evalDefer: d is a statement of the function body's own statement list and
+// defers either a function literal called without arguments or a call, with
+// arguments, of a function or method named through identifiers and selectors:
+// the arguments (and the literal) are evaluated into temporaries where the
+// defer statement stood, and the call is made with them on every way out
+// behind it, after the results have been assigned (named results first, so a
+// deferred literal sees and may change them as the language says).
+func evalDefer(fd *ast.FuncDecl, d *ast.DeferStmt) bool {
+	top := false
+	for _, st := range fd.Body.List {
+		if st == ast.Stmt(d) {
+			top = true
+		}
+	}
+	if !top {
+		return false
+	}
+	if _, isLit := d.Call.Fun.(*ast.FuncLit); isLit {
+		return len(d.Call.Args) == 0
+	}
+	var pure func(e ast.Expr) bool
+	pure = func(e ast.Expr) bool {
+		switch x := e.(type) {
+		case *ast.Ident:
+			return true
+		case *ast.SelectorExpr:
+			return pure(x.X)
+		case *ast.ParenExpr:
+			return pure(x.X)
+		}
+		return false
+	}
+	return pure(d.Call.Fun) && !d.Call.Ellipsis.IsValid()
+}
+
 // expandCallee rewrites the body of a new function itself (nested helpers).
 func (in *inliner) expandCallee(c *callee) {
 	switch in.state[c.obj] {
@@ -424,17 +476,36 @@ type site struct {
 	recv ast.Expr // receiver expression for method calls
 	// type of recv (differs from the written operand for promoted methods)
 	recvType types.Type
+	// instantiation of a generic callee at this call
+	inst  *types.Signature
+	targs *types.TypeList
 }
 
 func (in *inliner) calleeOf(pk *packages.Package, call *ast.CallExpr) *site {
-	switch fun := call.Fun.(type) {
+	funExpr := call.Fun
+	switch x := funExpr.(type) {
+	case *ast.IndexExpr:
+		if id, ok := x.X.(*ast.Ident); ok {
+			funExpr = id
+		}
+	case *ast.IndexListExpr:
+		if id, ok := x.X.(*ast.Ident); ok {
+			funExpr = id
+		}
+	}
+	switch fun := funExpr.(type) {
 	case *ast.Ident:
 		obj, _ := pk.TypesInfo.Uses[fun].(*types.Func)
 		if obj != nil {
 			obj = obj.Origin()
 		}
 		if c := in.callees[obj]; c != nil && c.pkg == pk {
-			return &site{call: call, c: c}
+			st := &site{call: call, c: c}
+			if inst, ok := pk.TypesInfo.Instances[fun]; ok {
+				st.inst, _ = inst.Type.(*types.Signature)
+				st.targs = inst.TypeArgs
+			}
+			return st
 		}
 		if v, _ := pk.TypesInfo.Uses[fun].(*types.Var); v != nil {
 			if c := in.closures[v]; c != nil && c.pkg == pk {
@@ -728,11 +799,43 @@ func (in *inliner) expand(pk *packages.Package, file *ast.File, st *site, ownerD
 			return fail("method of a generic type called from outside that type's methods")
 		}
 	}
-	if len(st.call.Args) != sig.Params().Len() {
-		return fail("argument count (multi-value argument)")
+	gsig := sig
+	if sig.TypeParams().Len() > 0 {
+		if st.inst == nil || st.targs == nil || st.targs.Len() != sig.TypeParams().Len() {
+			return fail("generic callee without a recorded instantiation")
+		}
+		if ownerDecl.Type.TypeParams != nil && len(ownerDecl.Type.TypeParams.List) > 0 {
+			return fail("generic callee inside a generic function")
+		}
+		if ownerDecl.Recv != nil && len(ownerDecl.Recv.List) == 1 {
+			rt := ownerDecl.Recv.List[0].Type
+			if se, ok := rt.(*ast.StarExpr); ok {
+				rt = se.X
+			}
+			switch rt.(type) {
+			case *ast.IndexExpr, *ast.IndexListExpr:
+				return fail("generic callee inside a method of a generic type")
+			}
+		}
+		sig = st.inst
 	}
-	if st.call.Ellipsis.IsValid() {
-		return fail("variadic spread")
+	nparams := sig.Params().Len()
+	switch {
+	case !sig.Variadic():
+		if len(st.call.Args) != nparams {
+			return fail("argument count (multi-value argument)")
+		}
+		if st.call.Ellipsis.IsValid() {
+			return fail("variadic spread")
+		}
+	case st.call.Ellipsis.IsValid():
+		if len(st.call.Args) != nparams {
+			return fail("argument count (variadic spread)")
+		}
+	default:
+		if len(st.call.Args) < nparams-1 {
+			return fail("argument count (multi-value argument)")
+		}
 	}
 	// import name mapping callee file -> caller file
 	q := &qualifier{pk: pk, file: file}
@@ -799,8 +902,15 @@ func (in *inliner) expand(pk *packages.Package, file *ast.File, st *site, ownerD
 		// every name in the type must still mean a type / package at the call
 		// site (a parameter or local of the caller may shadow it)
 		shadowed := false
-		ast.Inspect(e, func(n ast.Node) bool {
+		var visit func(n ast.Node) bool
+		visit = func(n ast.Node) bool {
 			switch x := n.(type) {
+			case *ast.Field:
+				// parameter, result and field names are not references
+				if x.Type != nil {
+					ast.Inspect(x.Type, visit)
+				}
+				return false
 			case *ast.SelectorExpr:
 				if id, ok := x.X.(*ast.Ident); ok && callScope != nil {
 					if _, obj := callScope.LookupParent(id.Name, st.call.Pos()); obj != nil {
@@ -820,10 +930,8 @@ func (in *inliner) expand(pk *packages.Package, file *ast.File, st *site, ownerD
 				}
 			}
 			return true
-		})
-		if shadowed {
-			return nil, false
 		}
+		ast.Inspect(e, visit)
 		ast.Inspect(e, func(n ast.Node) bool {
 			if x, ok := n.(*ast.SelectorExpr); ok {
 				if id, ok := x.X.(*ast.Ident); ok {
@@ -834,8 +942,23 @@ func (in *inliner) expand(pk *packages.Package, file *ast.File, st *site, ownerD
 			}
 			return true
 		})
+		if shadowed {
+			// a local of the caller hides a name the type is written with:
+			// the type is given a file-level alias (file scope has no such
+			// local) and the alias is used at the call site
+			if _, isTP := t.(*types.TypeParam); isTP {
+				return nil, false
+			}
+			in.nfresh++
+			alias := fmt.Sprintf("inlT%d_", in.nfresh)
+			file.Decls = append(file.Decls, &ast.GenDecl{Tok: token.TYPE, Specs: []ast.Spec{&ast.TypeSpec{Name: ast.NewIdent(alias), Assign: 1, Type: e}}})
+			in.dirty[file] = true
+			return ast.NewIdent(alias), true
+		}
 		return e, true
 	}
+	// parameters bound to function literals (see below): parameter -> fresh name
+	litParam := map[*types.Var]string{}
 	// receiver and arguments, in evaluation order
 	type bind struct {
 		name string // callee-side name
@@ -869,14 +992,52 @@ func (in *inliner) expand(pk *packages.Package, file *ast.File, st *site, ownerD
 		}
 		binds = append(binds, bind{name, tmp})
 	}
-	for i, a := range st.call.Args {
+	for i := 0; i < nparams; i++ {
 		pt := sig.Params().At(i).Type()
 		te, ok := typeExpr(pt)
 		if !ok {
 			return fail("a parameter type cannot be written in the calling file")
 		}
+		var vals []ast.Expr
+		if lit, isLit := st.call.Args[i].(*ast.FuncLit); isLit && !(sig.Variadic() && i == nparams-1) {
+			// a function literal handed to a parameter that the callee only
+			// ever calls: the literal becomes a local closure of the caller
+			// under a fresh name (evaluating a literal has no effect, so its
+			// place in the argument order does not matter); the next round
+			// inlines its calls like those of any new local closure
+			pv := gsig.Params().At(i)
+			if pv.Name() != "" && pv.Name() != "_" && in.onlyCalled(c, pv) {
+				fresh := fmt.Sprintf("%sfn_%s", prefix, pv.Name())
+				pre = append(pre, &ast.AssignStmt{Lhs: []ast.Expr{ast.NewIdent(fresh)}, Tok: token.DEFINE, Rhs: []ast.Expr{lit}})
+				litParam[pv] = fresh
+				continue
+			}
+		}
+		if id, isId := st.call.Args[i].(*ast.Ident); isId && !(sig.Variadic() && i == nparams-1) {
+			// a package-level function of this package handed to a parameter
+			// that the callee only ever calls: the calls name the function
+			// directly (unless the callee's body uses that name for something
+			// else)
+			pv := gsig.Params().At(i)
+			if fn, _ := pk.TypesInfo.Uses[id].(*types.Func); fn != nil && fn.Pkg() == pk.Types && fn.Parent() == pk.Types.Scope() &&
+				pv.Name() != "" && pv.Name() != "_" && in.onlyCalled(c, pv) && !in.mentions(c, id.Name) {
+				litParam[pv] = id.Name
+				continue
+			}
+		}
+		switch {
+		case sig.Variadic() && i == nparams-1 && !st.call.Ellipsis.IsValid():
+			// the arguments given for the variadic parameter, as a slice
+			// (nil when there are none)
+			if extra := st.call.Args[i:]; len(extra) > 0 {
+				te2, _ := typeExpr(pt)
+				vals = []ast.Expr{&ast.CompositeLit{Type: te2, Elts: extra}}
+			}
+		default:
+			vals = []ast.Expr{st.call.Args[i]}
+		}
 		tmp := fmt.Sprintf("%sa%d", prefix, i)
-		pre = append(pre, &ast.DeclStmt{Decl: &ast.GenDecl{Tok: token.VAR, Specs: []ast.Spec{&ast.ValueSpec{Names: []*ast.Ident{ast.NewIdent(tmp)}, Type: te, Values: []ast.Expr{a}}}}})
+		pre = append(pre, &ast.DeclStmt{Decl: &ast.GenDecl{Tok: token.VAR, Specs: []ast.Spec{&ast.ValueSpec{Names: []*ast.Ident{ast.NewIdent(tmp)}, Type: te, Values: vals}}}})
 		pre = append(pre, &ast.AssignStmt{Lhs: []ast.Expr{ast.NewIdent("_")}, Tok: token.ASSIGN, Rhs: []ast.Expr{ast.NewIdent(tmp)}})
 		binds = append(binds, bind{sig.Params().At(i).Name(), tmp})
 	}
@@ -899,6 +1060,15 @@ func (in *inliner) expand(pk *packages.Package, file *ast.File, st *site, ownerD
 		paramBinds = append(paramBinds, &ast.AssignStmt{Lhs: []ast.Expr{ast.NewIdent(b.name)}, Tok: token.DEFINE, Rhs: []ast.Expr{ast.NewIdent(b.tmp)}})
 		paramBinds = append(paramBinds, &ast.AssignStmt{Lhs: []ast.Expr{ast.NewIdent("_")}, Tok: token.ASSIGN, Rhs: []ast.Expr{ast.NewIdent(b.name)}})
 	}
+	// a generic callee: its type parameters are local aliases of the type
+	// arguments of this call
+	for i := 0; i < gsig.TypeParams().Len(); i++ {
+		te, ok := typeExpr(st.targs.At(i))
+		if !ok {
+			return fail("a type argument cannot be written in the calling file")
+		}
+		inner = append(inner, &ast.DeclStmt{Decl: &ast.GenDecl{Tok: token.TYPE, Specs: []ast.Spec{&ast.TypeSpec{Name: ast.NewIdent(gsig.TypeParams().At(i).Obj().Name()), Assign: 1, Type: te}}}})
+	}
 	// named results are ordinary variables of the body; they are declared
 	// before the parameters are bound (a parameter may shadow a type name)
 	var namedRes []string
@@ -917,6 +1087,17 @@ func (in *inliner) expand(pk *packages.Package, file *ast.File, st *site, ownerD
 		in.origOf[cp] = orig
 		if path, ok := pkgNames[orig]; ok {
 			cp.Name = q.nameOf(path)
+		}
+		if len(litParam) > 0 {
+			o := orig
+			for in.origOf[o] != nil {
+				o = in.origOf[o]
+			}
+			if v, _ := c.pkg.TypesInfo.Uses[o].(*types.Var); v != nil {
+				if fresh, ok := litParam[v]; ok {
+					cp.Name = fresh
+				}
+			}
 		}
 	}).(*ast.BlockStmt)
 	// labels of nested, already expanded helpers must stay unique per function
@@ -950,14 +1131,38 @@ func (in *inliner) expand(pk *packages.Package, file *ast.File, st *site, ownerD
 	// the defer statement (after the results have been assigned, as the
 	// language does; what differs is a panic, which the rules do not model)
 	var defers []*ast.DeferStmt
+	// what is evaluated where the defer statement stands (a function literal,
+	// the arguments), kept in temporaries: defer statement -> call to make
+	evaluated := map[*ast.DeferStmt]*ast.CallExpr{}
+	closureDefer := false
 	{
 		var keep []ast.Stmt
 		for _, st := range body.List {
-			if d, ok := st.(*ast.DeferStmt); ok {
-				defers = append(defers, d)
+			d, ok := st.(*ast.DeferStmt)
+			if !ok {
+				keep = append(keep, st)
 				continue
 			}
-			keep = append(keep, st)
+			defers = append(defers, d)
+			k := len(defers) - 1
+			if lit, isLit := d.Call.Fun.(*ast.FuncLit); isLit {
+				closureDefer = true
+				tmp := fmt.Sprintf("%sd%d", prefix, k)
+				keep = append(keep, &ast.AssignStmt{Lhs: []ast.Expr{ast.NewIdent(tmp)}, Tok: token.DEFINE, Rhs: []ast.Expr{lit}})
+				keep = append(keep, &ast.AssignStmt{Lhs: []ast.Expr{ast.NewIdent("_")}, Tok: token.ASSIGN, Rhs: []ast.Expr{ast.NewIdent(tmp)}})
+				evaluated[d] = &ast.CallExpr{Fun: ast.NewIdent(tmp)}
+				continue
+			}
+			if len(d.Call.Args) > 0 {
+				var args []ast.Expr
+				for j, a := range d.Call.Args {
+					tmp := fmt.Sprintf("%sd%da%d", prefix, k, j)
+					keep = append(keep, &ast.AssignStmt{Lhs: []ast.Expr{ast.NewIdent(tmp)}, Tok: token.DEFINE, Rhs: []ast.Expr{a}})
+					keep = append(keep, &ast.AssignStmt{Lhs: []ast.Expr{ast.NewIdent("_")}, Tok: token.ASSIGN, Rhs: []ast.Expr{ast.NewIdent(tmp)}})
+					args = append(args, ast.NewIdent(tmp))
+				}
+				evaluated[d] = &ast.CallExpr{Fun: d.Call.Fun, Args: args}
+			}
 		}
 		body.List = keep
 	}
@@ -968,7 +1173,11 @@ func (in *inliner) expand(pk *packages.Package, file *ast.File, st *site, ownerD
 			if !all && !(d.Pos() < at) {
 				continue
 			}
-			call := cloneNode(d.Call, func(orig, cp *ast.Ident) {
+			src := d.Call
+			if ev := evaluated[d]; ev != nil {
+				src = ev
+			}
+			call := cloneNode(src, func(orig, cp *ast.Ident) {
 				o := orig
 				if in.origOf[o] != nil {
 					o = in.origOf[o]
@@ -978,6 +1187,12 @@ func (in *inliner) expand(pk *packages.Package, file *ast.File, st *site, ownerD
 			out = append(out, &ast.ExprStmt{X: call})
 		}
 		return out
+	}
+	allNamedRes := sig.Results().Len() > 0
+	for _, rn := range namedRes {
+		if rn == "" || rn == "_" {
+			allNamedRes = false
+		}
 	}
 	okRet := true
 	rewriteReturns(body, func(r *ast.ReturnStmt) []ast.Stmt {
@@ -993,12 +1208,27 @@ func (in *inliner) expand(pk *packages.Package, file *ast.File, st *site, ownerD
 				}
 				out = append(out, &ast.AssignStmt{Lhs: []ast.Expr{ast.NewIdent(results[i])}, Tok: token.ASSIGN, Rhs: []ast.Expr{ast.NewIdent(rn)}})
 			}
+		case closureDefer && allNamedRes && (len(r.Results) == len(results) || len(r.Results) == 1):
+			// return X with named results and a deferred literal: the results
+			// are stored in the named variables, the deferred calls run (and
+			// may read or change them), and their final values are returned
+			out = append(out, &ast.AssignStmt{Lhs: idents(namedRes), Tok: token.ASSIGN, Rhs: r.Results})
+			out = append(out, deferredCalls(r.Pos(), false)...)
+			out = append(out, &ast.AssignStmt{Lhs: idents(results), Tok: token.ASSIGN, Rhs: idents(namedRes)})
+			out = append(out, &ast.BranchStmt{Tok: token.BREAK, Label: ast.NewIdent(label)})
+			return out
 		case len(r.Results) == len(results):
 			out = append(out, &ast.AssignStmt{Lhs: idents(results), Tok: token.ASSIGN, Rhs: r.Results})
 		case len(r.Results) == 1 && len(results) > 1:
 			out = append(out, &ast.AssignStmt{Lhs: idents(results), Tok: token.ASSIGN, Rhs: r.Results})
 		default:
 			okRet = false
+		}
+		if closureDefer && allNamedRes && len(r.Results) == 0 {
+			// bare return: deferred calls first, then the named values
+			out = append(deferredCalls(r.Pos(), false), out...)
+			out = append(out, &ast.BranchStmt{Tok: token.BREAK, Label: ast.NewIdent(label)})
+			return out
 		}
 		out = append(out, deferredCalls(r.Pos(), false)...)
 		out = append(out, &ast.BranchStmt{Tok: token.BREAK, Label: ast.NewIdent(label)})
@@ -1016,6 +1246,9 @@ func (in *inliner) expand(pk *packages.Package, file *ast.File, st *site, ownerD
 				allNamed = false
 			}
 		}
+		if allNamed && closureDefer && allNamedRes {
+			inner = append(inner, deferredCalls(token.NoPos, true)...)
+		}
 		if allNamed {
 			for i, rn := range namedRes {
 				if rn != "_" {
@@ -1024,7 +1257,9 @@ func (in *inliner) expand(pk *packages.Package, file *ast.File, st *site, ownerD
 			}
 		}
 	}
-	inner = append(inner, deferredCalls(token.NoPos, true)...)
+	if !(closureDefer && allNamedRes) {
+		inner = append(inner, deferredCalls(token.NoPos, true)...)
+	}
 	inner = append(inner, &ast.BranchStmt{Tok: token.BREAK, Label: ast.NewIdent(label)})
 	sw := &ast.LabeledStmt{Label: ast.NewIdent(label), Stmt: &ast.SwitchStmt{Body: &ast.BlockStmt{List: []ast.Stmt{&ast.CaseClause{Body: []ast.Stmt{&ast.BlockStmt{List: inner}}}}}}}
 	pre = append(pre, sw)
@@ -1033,6 +1268,57 @@ func (in *inliner) expand(pk *packages.Package, file *ast.File, st *site, ownerD
 	pos := in.fset.Position(st.call.Pos())
 	in.res.Inlined = append(in.res.Inlined, fmt.Sprintf("%s into %s at %s:%d", shortName(FuncName(c.pkg.PkgPath, c.decl)), shortName(owner), shortFile(pos.Filename), pos.Line))
 	return pre, results
+}
+
+// onlyCalled: every use of parameter pv in the callee's body is the function
+// of a call that is neither deferred nor started as a goroutine, and there is
+// at least one.
+func (in *inliner) onlyCalled(c *callee, pv *types.Var) bool {
+	uses, calls := 0, 0
+	skip := map[*ast.CallExpr]bool{}
+	ast.Inspect(c.decl.Body, func(n ast.Node) bool {
+		switch x := n.(type) {
+		case *ast.GoStmt:
+			skip[x.Call] = true
+		case *ast.DeferStmt:
+			skip[x.Call] = true
+		}
+		return true
+	})
+	resolve := func(id *ast.Ident) *types.Var {
+		o := id
+		for in.origOf[o] != nil {
+			o = in.origOf[o]
+		}
+		v, _ := c.pkg.TypesInfo.Uses[o].(*types.Var)
+		return v
+	}
+	ast.Inspect(c.decl.Body, func(n ast.Node) bool {
+		switch x := n.(type) {
+		case *ast.CallExpr:
+			if id, ok := x.Fun.(*ast.Ident); ok && !skip[x] && resolve(id) == pv {
+				calls++
+			}
+		case *ast.Ident:
+			if resolve(x) == pv {
+				uses++
+			}
+		}
+		return true
+	})
+	return uses > 0 && uses == calls
+}
+
+// mentions: some identifier of the callee's declaration is spelled name.
+func (in *inliner) mentions(c *callee, name string) bool {
+	found := false
+	ast.Inspect(c.decl, func(n ast.Node) bool {
+		if id, ok := n.(*ast.Ident); ok && id.Name == name {
+			found = true
+		}
+		return !found
+	})
+	return found
 }
 
 func shortName(s string) string {
